@@ -74,6 +74,15 @@ func (v *VerifSB) HoldPipe() (release func()) {
 	return func() { v.sb.buf.rwCond.L.Unlock() }
 }
 
+// RecvLocked reports whether some goroutine is inside streamBuffer.Write (holds recvM) right now.
+func (v *VerifSB) RecvLocked() bool {
+	if v.sb.recvM.TryLock() {
+		v.sb.recvM.Unlock()
+		return false
+	}
+	return true
+}
+
 // Buffered is the number of bytes handed over to the pipe so far and not yet read (caller must not hold the pipe).
 func (v *VerifSB) Buffered() int {
 	p := v.sb.buf
